@@ -36,6 +36,9 @@ func genCase(t *rapid.T) Case {
 	}
 	if shape == "tiny" {
 		n = rapid.IntRange(0, 4).Draw(t, "ntiny")
+	} else if shape != "damped-zigzag" && rapid.IntRange(0, 49).Draw(t, "verylong") == 0 {
+		// sizes across any power-of-two constant an implementation may switch on
+		n = rapid.SampledFrom([]int{255, 256, 257, 511, 512, 513, 1023, 1024, 1025, 1100, 1500, 2047, 2048, 2049, 2600}).Draw(t, "nverylong")
 	}
 	if shape == "damped-zigzag" {
 		// the farthest point is always the one right after the chord start: the
